@@ -146,3 +146,48 @@ def yearmonth_interval(P):
         return (s.year == year and s.month == month and s.day == 1 and e.year == year and e.month == month
                 and e.day == calc._get_days_in_month(year, month) and s.calendar is cal)
     return h
+
+
+# ------------------------------------------------------------------------------------------------ a calendar whose month numbers are not in time order
+def _heb_interval_params(tier, seed):
+    from props import calsetup as cs
+    ws = cs.windows("Hebrew Scriptural", 40)
+    ws = ws if tier == "thorough" else cs.pick(ws, seed + 3, 1)
+    return [[cs.P("Hebrew Scriptural", *w), m] for w in ws for m in ((1, 4, 7, 10, 12) if tier == "quick" else range(1, 14))]
+
+
+@lemma({"year": int, "ms": int, "ds": int, "me": int, "de": int, "mx": int, "dx": int}, params=_heb_interval_params, budget=300, per_path=40,
+       bounds="DateInterval over REAL Hebrew-scriptural dates of one year (the year runs month 7..13, then 1..6, so month numbers are not in time "
+              "order; a seeded 40-year window, partitioned by the start date's month - 5 months in quick, all 13 in thorough): construction is "
+              "accepted exactly when start <= end in TIME order, and `x in interval` is exactly start <= x <= end in time order")
+def dateinterval_hebrew_scriptural(PM):
+    from props import calsetup as cs
+    from props import ymdrecord
+    from pyoda_time import DateInterval, LocalDate
+    P, first_month = PM
+    cid, lo, hi = cs.unP(P)
+    cal, calc, lo, hi = cs.prepare(cid, lo, hi)
+    ymdrecord.install()
+
+    def key(year, m, d):
+        return calc._get_days_from_start_of_year_to_start_of_month(year, m) * 32 + d
+
+    def h(year, ms, ds, me, de, mx, dx):
+        assume(ms == first_month)
+        assume(lo <= year <= hi)
+        n = calc._get_months_in_year(year)
+        for m in (ms, me, mx):
+            assume(1 <= m <= n)
+        for d in (ds, de, dx):
+            assume(1 <= d <= 29)                     # every Hebrew month has at least 29 days
+        mk = lambda m, d: LocalDate._ctor(year_month_day_calendar=ymdrecord.YMDC(year, m, d, cal._ordinal))     # noqa: E731
+        ks, ke, kx = key(year, ms, ds), key(year, me, de), key(year, mx, dx)
+        try:
+            iv = DateInterval(mk(ms, ds), mk(me, de))
+        except ValueError:
+            return ke < ks
+        if ke < ks:
+            return False
+        x = mk(mx, dx)
+        return (x in iv) == (ks <= kx <= ke) and iv.contains(x) == (ks <= kx <= ke)
+    return h, cs.reset_hebrew_cache
